@@ -330,7 +330,7 @@ func (x *Exec) execInstr(bc *blockCtx, in ssa.Instruction) ([]*Edge, bool) {
 		for _, r := range i.Results {
 			vals = append(vals, x.valueIn(fr, bc.env, r))
 		}
-		fr.returns = append(fr.returns, &retEdge{cond: bc.reach, vals: vals, st: bc.st, pos: i.Pos()})
+		fr.returns = append(fr.returns, &retEdge{cond: bc.reach, vals: vals, st: bc.st, pos: i.Pos(), blk: bc.b})
 		return nil, true
 
 	case *ssa.Panic:
